@@ -40,6 +40,108 @@ Proof.
     destruct (len (l_data a) <? off); (split; [apply om_refl|right; split; auto]).
 Qed.
 
+(* ---------- Copy ---------- *)
+Lemma existsb_dset (p : N -> bool) d i F :
+  dget d i <> None ->
+  existsb (fun '(j, _) => p j) (dset d i F) = existsb (fun '(j, _) => p j) d.
+Proof.
+  induction d as [|[k G] d IH]; simpl; [congruence|].
+  destruct (N.eqb_spec k i); intros H; simpl.
+  - subst. reflexivity.
+  - rewrite IH; auto.
+Qed.
+
+Lemma stale_upd_cur m h F : dget (m_disk m) (m_cur m) <> None -> m_stale (m_upd_cur m h F) = m_stale m.
+Proof.
+  intros EX. unfold m_stale, m_upd_cur, m_with; cbn [m_disk m_cur].
+  apply (existsb_dset (fun j => m_cur m <? j)). exact EX.
+Qed.
+
+(* the copy, opened read-only and read from 0 to its size *)
+Lemma copy_read m a :
+  Rm m a -> m_stale m = false -> h_fo (m_app m) = len (cur_file m) -> h_uw (m_app m) = h_fl (m_app m) ->
+  l_disc a = 0 ->
+  let c := m_reopen m (mko true 0 (m_retry m) (m_auto m)) in
+  match m_size c with
+  | ON sz => (if sz =? 0 then OCopy []
+              else match snd (m_readat c sz 0) with ORead bs _ => OCopy bs | _ => OCopy [] end) = OCopy (l_data a)
+  | _ => False
+  end.
+Proof.
+  intros [D Fl] ST EF U DS. cbn zeta.
+  set (o := mko true 0 (m_retry m) (m_auto m)).
+  assert (OV : opts_valid o = true) by reflexivity.
+  assert (NC : nocap o = true).
+  { unfold nocap, o; cbn [o_retry o_auto]. rewrite (rf_nocap _ _ Fl). reflexivity. }
+  pose proof (reopen_core m a o D (rf_meta _ _ Fl) ST EF U OV NC) as Rc.
+  set (c := m_reopen m o) in *.
+  set (ac := mklog (l_data a) (o_ro o) false (l_meta a) (cap_of o) (l_size a) (l_size a) (l_disc a) false) in *.
+  pose proof Rc as [Dc Fc].
+  assert (MCc : m_closed c = false) by (rewrite <- (rf_closed _ _ Fc); reflexivity).
+  assert (ACc : h_closed (m_app c) = false) by (rewrite (rf_acl _ _ Fc); exact MCc).
+  pose proof (Rd_size _ _ Dc) as SZ. unfold l_size in SZ. cbn [ac l_data] in SZ.
+  unfold m_size, h_size. rewrite MCc, ACc. fold (m_offset c). rewrite <- SZ.
+  destruct (N.eqb_spec (len (l_data a)) 0) as [Z|NZ].
+  { f_equal. symmetry. apply len_0_nil. exact Z. }
+  unfold m_readat. replace (len (l_data a) =? 0) with false by (symmetry; apply N.eqb_neq; exact NZ).
+  rewrite MCc.
+  assert (NP : 0 < len (l_data a)) by (clear - NZ; lia).
+  assert (STc : m_stale c = false).
+  { unfold c, m_reopen, m_stale.
+    assert (MAXI : forall i F, In (i, F) (m_disk m) -> i <= m_cur m).
+    { unfold m_stale in ST. intros i F I. pose proof (existsb_false _ _ ST (i, F) I) as Q. cbn in Q.
+      apply N.ltb_ge in Q. exact Q. }
+    rewrite (dmax_spec _ _ MAXI (rd_ex _ _ D)). unfold m_open_chunk.
+    destruct (dget (m_disk m) (m_cur m)) eqn:GG; [|exfalso; apply (rd_ex _ _ D); exact GG].
+    unfold m_with; cbn [m_disk m_cur]. exact ST. }
+  assert (NR : nrb c (len (l_data a)) 0 = false) by (unfold nrb; rewrite STc; reflexivity).
+  destruct (m_read_loop_spec (S (S (N.to_nat (len (l_data a))))) c ac (len (l_data a)) 0 [] Rc MCc NP) as (m2 & E2 & _); auto.
+  - cbn [ac l_disc]. rewrite DS. clear; lia.
+  - change (len []) with 0. clear; lia.
+  - change (len []) with 0. clear; lia.
+  - rewrite E2. cbn [snd ac l_data]. unfold spec_read.
+    replace (len (l_data a) <? 0) with false by (symmetry; apply N.ltb_ge; clear; lia).
+    cbn zeta. rewrite N.sub_0_r, N.min_id, N.add_0_l, slice_all. reflexivity.
+Qed.
+
+Lemma msim_copy m a : Rm m a -> l_chaos a = false -> m_risky m Copy = false -> mstep_ok m a Copy.
+Proof.
+  intros Rma CH NRK. pose proof Rma as [D Fl].
+  unfold mstep_ok, m_step, spec_step, m_copy. rewrite CH, (rf_closed _ _ Fl).
+  destruct (m_closed m) eqn:MC; [split; [apply om_refl|right; split; auto]|].
+  cbn [m_risky] in NRK. rewrite MC in NRK. cbn [negb andb] in NRK.
+  apply orb_false_elim in NRK as [ST NT]. apply N.ltb_ge in NT.
+  pose proof (rd_wf _ _ D) as W. pose proof (wf_fo _ _ W) as FOL.
+  assert (Ra' : Rm m (set_marks a (l_sy a) (l_size a))) by (apply Rm_marks; exact Rma).
+  assert (exists m1, (if m_ro m then (m, OOk)
+                      else let '(h', F', x) := h_sync_op (m_app m) (cur_file m) in (m_upd_cur m h' F', x)) = (m1, OOk) /\
+            Rm m1 (set_marks a (l_sy a) (l_size a)) /\ m_stale m1 = false /\
+            h_fo (m_app m1) = len (cur_file m1) /\ h_uw (m_app m1) = h_fl (m_app m1) /\
+            m_retry m1 = m_retry m /\ m_auto m1 = m_auto m)
+    as (m1 & E1 & R1 & ST1 & EF1 & U1 & RT1 & AU1).
+  { destruct (m_ro m) eqn:MR.
+    - exists m. assert (ARO : h_ro (m_app m) = true) by (rewrite (rf_aro _ _ Fl); auto).
+      destruct (wf_ro _ _ W ARO) as [UW0 FL0]. splits; auto; [|congruence].
+      unfold h_offset in NT. rewrite UW0, FL0 in NT. clear - NT FOL. lia.
+    - unfold h_sync_op. rewrite (rf_acl _ _ Fl), (rf_aro _ _ Fl), MC, MR.
+      destruct (h_sync (m_app m) (cur_file m)) as [h' F'] eqn:ES.
+      destruct (h_sync_spec _ _ _ _ W ES) as (W' & C' & S' & FO' & U' & _).
+      pose proof (h_sync_len _ _ _ _ W ES) as LF.
+      exists (m_upd_cur m h' F'). splits; auto.
+      + apply (msim_cur_keep m a h' F'); auto; intros; congruence.
+      + rewrite stale_upd_cur; auto. apply (rd_ex _ _ D).
+      + rewrite cur_file_upd. cbn [m_upd_cur m_with m_app]. rewrite FO', LF. clear - NT. lia. }
+  rewrite E1.
+  assert (DISC : l_disc (set_marks a (l_sy a) (l_size a)) = l_disc a) by reflexivity.
+  destruct (N.ltb_spec 0 (l_disc a)) as [DP|DZ].
+  - (* unspecified after a discard *)
+    destruct (m_size (m_reopen m1 (mko true 0 (m_retry m) (m_auto m)))); (split; [left; reflexivity|right; split; auto]).
+  - assert (DS : l_disc (set_marks a (l_sy a) (l_size a)) = 0) by (rewrite DISC; clear - DZ; lia).
+    pose proof (copy_read m1 _ R1 ST1 EF1 U1 DS) as CR. cbn zeta in CR. rewrite RT1, AU1 in CR.
+    destruct (m_size (m_reopen m1 (mko true 0 (m_retry m) (m_auto m)))); try contradiction.
+    rewrite CR. cbn [set_marks l_data]. split; [apply om_refl|right; split; auto].
+Qed.
+
 Definition ops_nocap (ops : list op) : bool :=
   forallb (fun o => match o with Reopen o' => nocap o' | _ => true end) ops.
 
@@ -60,6 +162,7 @@ Proof.
   - apply msim_close; auto.
   - apply msim_reopen; auto.
   - apply msim_meta; auto.
+  - apply msim_copy; auto.
 Qed.
 
 Lemma multi_refines_gen : forall ops m a,
